@@ -52,44 +52,61 @@ def oracle_baton(lines):
                 return "participant %s returned from its enter no. %d while some participant had made only %d calls" % (l.split()[0], k, m)
     last = lines[-1]
     if last.startswith("TIMEOUT"):
-        return "participants never became quiescent (watchdog 20 s)"
+        return "participants never became quiescent (watchdog, reproduced with 2x the time)"
     if not last.startswith("END done"):
         return "barrier stuck: %s (no participant can move, not all returned)" % last
     return None
 
 
-def run_impl(exe, cases, env, max_hangs=2):
-    """run the cases; a TIMEOUT/crash ends the process: record it and relaunch for the remaining cases.
-    After max_hangs hangs the remaining cases are skipped (result None)."""
-    results = []
-    header = None
-    hangs = 0
-    while len(results) < len(cases):
-        if hangs >= max_hangs:
-            results += [None] * (len(cases) - len(results))
-            break
-        rest = cases[len(results):]
-        rc, out, err = core.run_lines(exe, rest + ["Q"], timeout=90 + len(rest), env=env)
-        if not out or not out[0].startswith("H "):
-            raise core.BuildError("harness did not start: rc=%s %s" % (rc, err[-500:]))
-        header = out[0]
-        cur = []
-        closed = True
-        for l in out[1:]:
-            cur.append(l)
-            closed = False
-            if l.startswith(("END", "FR", "TIMEOUT")):
-                results.append(cur); cur = []; closed = True
-                if l.startswith("TIMEOUT"):
+def _run_chunk(exe, cases, env):
+    """one harness process over `cases`; returns list of per-case line lists (shorter than cases if it died)"""
+    rc, out, err = core.run_lines(exe, cases + ["Q"], timeout=int(env.get("VERIF_WATCHDOG", "20")) * 2 + 120, env=env)
+    if not out or not out[0].startswith("H "):
+        raise core.BuildError("harness did not start: rc=%s %s" % (rc, err[-500:]))
+    results, cur = [], []
+    for l in out[1:]:
+        cur.append(l)
+        if l.startswith(("END", "FR", "TIMEOUT")):
+            results.append(cur); cur = []
+            if l.startswith("TIMEOUT"):
+                return results
+    if len(results) < len(cases) and (cur or rc != 0):
+        results.append(cur + ["TIMEOUT rc=%s %s" % (rc, err.strip()[-200:])])
+    return results
+
+
+HANGS = [0]      # confirmed hangs in this check run: after the first one no further cases are started
+
+
+def run_impl(exe, cases, env, budget_s, notes, watchdog=20, chunk=12, max_hangs=1):
+    """Run the cases in chunks until the wall-clock budget is used up (cases not run -> None).
+    A case that hits the watchdog is run once more, alone, with a 2x watchdog: only a hang that reproduces counts
+    (the machine is shared; a slow run is recorded in the notes, never dropped silently)."""
+    import time
+    t0 = time.time()
+    results = [None] * len(cases)
+    i = 0
+    hangs = HANGS[0]
+    env = dict(env, VERIF_WATCHDOG=str(watchdog))
+    while i < len(cases) and hangs < max_hangs and time.time() - t0 < budget_s:
+        part = _run_chunk(exe, cases[i:i + chunk], env)
+        for r in part:
+            if r[-1].startswith("TIMEOUT"):
+                again = _run_chunk(exe, [cases[i]], dict(env, VERIF_WATCHDOG=str(2 * watchdog)))
+                if again and not again[0][-1].startswith("TIMEOUT"):
+                    notes.append("case '%s' hit the %d s watchdog once and completed when re-run alone (loaded machine)" % (cases[i][:60], watchdog))
+                    r = again[0]
+                else:
                     hangs += 1
-                    break
-        if len(results) < len(cases):
-            if not closed or rc != 0 and not (results and results[-1][-1].startswith("TIMEOUT")):
-                results.append(cur + ["TIMEOUT rc=%s %s" % (rc, err.strip()[-200:])])
-                hangs += 1
-            elif rc == 0:
-                results += [None] * (len(cases) - len(results))
-    return header, results[:len(cases)]
+                    HANGS[0] += 1
+            results[i] = r
+            i += 1
+        if not part:
+            results[i] = ["TIMEOUT no output"]
+            i += 1
+            hangs += 1
+            HANGS[0] += 1
+    return results
 
 
 def run(ctx):
@@ -101,9 +118,13 @@ def run(ctx):
         raise core.BuildError("Barrier/Extract.v does not compile:\n" + log[-2000:])
     exe = ctx.link("c11_barrier", ["c11_barrier.c"], exclude=["barrier/feb.c"])
     drv = ctx.model_driver("c11_driver")
-    configs = [(1, 1), (2, 2), (4, 1), (1, 4)] if quick else [(1, 1), (2, 2), (4, 1), (1, 4), (3, 2), (8, 1), (2, 1)]
-    nbaton = 40 if quick else 260
-    nfree = 14 if quick else 80
+    # multi-shepherd configurations are slow on a loaded machine (idle workers sched_yield in the steal loop), so
+    # they get fewer and smaller baton cases; every configuration has a wall-clock budget (cases not run are counted)
+    if quick:
+        configs = [((1, 1), 44, 8, 12), ((1, 4), 36, 8, 12), ((2, 2), 8, 6, 12), ((4, 1), 8, 6, 12)]
+    else:
+        configs = [((1, 1), 400, 40, 60), ((1, 4), 300, 40, 60), ((2, 2), 60, 30, 120), ((4, 1), 60, 30, 120),
+                   ((3, 2), 40, 20, 100), ((8, 1), 40, 20, 100), ((2, 1), 60, 20, 60)]
     corpus = [  # boundary cases, always first
         (1, 1, [0]), (1, 5, [0]), (2, 1, [0]), (2, 3, [839]), (3, 2, [0]), (8, 5, [0]), (8, 5, [839]),
         (2, 3, [2 * PREF]), (3, 3, [1 * PREF, 1 * PREF, 1 * PREF, 2 * PREF, 3 * PREF]), (5, 2, [k * 7 % 840 for k in range(97)]),
@@ -115,13 +136,18 @@ def run(ctx):
     mismatches = []
     oracle_fail = []
     steps_total = 0
-    for (ns, nw) in configs:
+    skipped = 0
+    for ((ns, nw), nbaton, nfree, budget) in configs:
         r2 = rng.fork()
-        cases = list(corpus)
-        kinds = ["corpus"] * len(corpus)
-        while len(cases) < len(corpus) + nbaton:
+        small = ns > 1
+        cor = [c for c in corpus if not small or c[0] * c[1] <= 9]
+        cases = list(cor)
+        kinds = ["corpus"] * len(cor)
+        while len(cases) < len(cor) + nbaton:
             n = r2.weighted([(1, 1), (2, 3), (3, 3), (4, 2), (5, 2), (6, 1), (7, 1), (8, 2)])
             e = r2.range(1, 5)
+            if small and quick:
+                n, e = min(n, 5), min(e, 3)
             kind, sched = gen_sched(r2, n, e)
             cases.append((n, e, sched))
             kinds.append(kind)
@@ -129,7 +155,9 @@ def run(ctx):
         free = [(r2.range(1, 8), r2.range(1, 5), r2.below(1 << 30), r2.choice([0, 2, 3, 5])) for _ in range(nfree)]
         flines = ["F %d %d %d %d" % f for f in free]
         env = core.qenv(ns, nw, stack=65536)
-        header, res = run_impl(exe, lines + flines, env)
+        res = run_impl(exe, lines, env, budget, ctx.notes, watchdog=20 if ns == 1 else 60)
+        res += run_impl(exe, flines, env, budget, ctx.notes, watchdog=30 if ns == 1 else 60, chunk=40)
+        skipped += sum(1 for r in res if r is None)
         rc2, mout, merr = core.run_lines(drv, lines, timeout=600)
         # split model output per case
         mres = []
@@ -160,7 +188,8 @@ def run(ctx):
             if why:
                 oracle_fail.append((why, dict(case, impl_tail=impl[-6:])))
             if len(samples) < 3 and n >= 3 and e >= 2 and kind != "corpus":
-                samples.append(dict(case, impl_first_steps=impl[:12], steps=len(impl)))
+                samples.append({"config": [ns, nw], "participants": n, "episodes": e, "schedule_kind": kind,
+                                "schedule_prefix": sched[:12], "impl_first_steps": impl[:10], "impl_last_steps": impl[-3:], "steps": len(impl)})
         for fi, f in enumerate(free):
             impl = res[len(lines) + fi]
             if impl is None:
@@ -180,13 +209,14 @@ def run(ctx):
                     oracle_fail.append(("after the run %d participants short of episodes, blockers=%d" % (p[4], p[5]), case))
                     mismatches.append(dict(case, impl=last, model="FR 0 . . . 0 0"))
             else:
-                oracle_fail.append(("free-running participants never all returned (watchdog 20 s): model terminates (barrier_terminates)", dict(case, impl=impl[-3:])))
+                oracle_fail.append(("free-running participants never all returned (watchdog, reproduced with 2x the time): model terminates (barrier_terminates)", dict(case, impl=impl[-3:])))
                 mismatches.append(dict(case, impl=impl[-3:], model="all participants return"))
     ctx.cov.update(evaluations=evals, distinct_nontrivial=len(nontrivial), samples=samples,
                    rule="baton cases: N in 1..8 participants x 1..5 episodes x adaptive schedules (uniform / lowest-first / highest-first / "
                         "streaks of one participant / one starved participant / round-robin) on every configuration, compared after every "
                         "shared access; free-running cases with random yields, oracle only; non-trivial = N>=2 and episodes>=2 (re-entry possible)",
-                   traces_validated_against_impl=evals, micro_steps_compared=steps_total, input_distribution=hist, configs=configs,
+                   traces_validated_against_impl=evals, micro_steps_compared=steps_total, input_distribution=hist,
+                   configs=[list(c[0]) for c in configs], cases_not_run_budget=skipped,
                    correspondence_mismatches=len(mismatches))
     ctx.assumptions += ["sequential consistency of the gate/blockers accesses (fences are DESIGN.md section 8)",
                         "FEB words behave as C01/C02 state: readFF blocks on empty, fill releases every waiter (observed in the replay, proved elsewhere)"]
@@ -216,7 +246,7 @@ def replay(ctx, path):
     if not line:
         return run(ctx)
     exe = ctx.link("c11_barrier", ["c11_barrier.c"], exclude=["barrier/feb.c"])
-    header, res = run_impl(exe, [line], core.qenv(cfg[0], cfg[1], stack=65536))
+    res = run_impl(exe, [line], core.qenv(cfg[0], cfg[1], stack=65536), 600, ctx.notes, watchdog=60)
     print("\n".join(res[0][-12:]))
     if line.startswith("C"):
         why = oracle_baton(res[0])
